@@ -31,16 +31,18 @@ Section Main.
   Theorem parse_reads : forall ord n k cl o pevs,
     ord = true \/ nomaps_u u = true ->
     wf_model u cl = true -> fits n cl o = true ->
-    reads_o ord (eobj n None o) pevs ->
+    reads_o ord (etop c u ign n o) pevs ->
     Parser.parse_n k cfg c u (Some cl) pevs = Parser.Ok o [].
   Proof.
     intros ord n k cl o pevs Hmu Hwf Hfit Hr.
     pose proof (wf_model_wfr cl Hwf) as Hw.
-    assert (Hr0 : reads_o ord (add_xsi_e None (eobj n None o)) pevs) by (rewrite add_xsi_e_none; exact Hr).
+    assert (Hr0 : reads_o ord (add_nil_e (nil_kept u (cnil u o) o) (add_xsi_e None (eobj n None o))) pevs)
+      by (rewrite add_xsi_e_none; exact Hr).
     assert (Hxq : forall q, xsi_val None = Some q -> ok (PQName q) = true /\ qname_ok q = true)
       by (intros q Hq; discriminate Hq).
-    destruct (all_parse cfg c u ok ign (Parser.replay_n k c u) (Some cl) ord conv_law Hnodef Hmu n cl o None None Hw Hfit Hxq
-               ltac:(intros Hx0; exfalso; apply Hx0; reflexivity) pevs Hr0)
+    destruct (all_parse cfg c u ok ign (Parser.replay_n k c u) (Some cl) ord conv_law Hnodef Hmu n cl o None None
+               (nil_kept u (cnil u o) o) Hw Hfit Hxq
+               ltac:(intros Hx0; exfalso; apply Hx0; reflexivity) (nil_ok_top c u ok cl o n Hfit) pevs Hr0)
       as [attrs [ns [inner [-> [Hxt [Hxn Hrun]]]]]].
     destruct (wfr_inv u cl Hw) as [m [Hm _]].
     assert (Ho : exists fs, o = VObj cl fs).
@@ -53,9 +55,10 @@ Section Main.
     rewrite E. clear E.
     rewrite run_cons.
     assert (Hs : Parser.step cfg c u (Parser.replay_n k c u) (Some cl) Parser.init_state (PStart (elem_name u None cl) attrs ns)
-                 = Parser.ROk (Parser.mk_pstate [Parser.NElement (Parser.mk_enode m attrs ns 0 false None None [] [])] [] [])).
+                 = Parser.ROk (Parser.mk_pstate [Parser.NElement (Parser.mk_enode m attrs ns 0 false None
+                                                                    (xn_of (nil_kept u (cnil u (VObj cl fs)) (VObj cl fs))) [] [])] [] [])).
     { cbn [Parser.step Parser.start Parser.init_state Parser.st_queue Parser.st_objects Parser.st_warn].
-      unfold Parser.root_node. rewrite Hxt. unfold Parser.xsi_nil_of. rewrite Hxn.
+      unfold Parser.root_node. rewrite Hxt. rewrite Hxn.
       cbn [Parser.truthy_str Parser.rbind]. unfold Parser.fetch, Parser.get_meta. rewrite Hm. cbn [Parser.rbind Parser.truthy_str].
       reflexivity. }
     rewrite Hs. cbn [Parser.rbind].
@@ -75,7 +78,7 @@ Section Main.
       /\ forall k pevs, reads_o ord e pevs -> Parser.parse_n k cfg c u (Some cl) pevs = Parser.Ok o [].
   Proof.
     intros ord n cl o Hmu Hwf Hfit. pose proof (wf_model_wfr cl Hwf) as Hw.
-    exists (bflat (add_nil_g (cnil u o) (gobj c u ign n None o))), (eobj n None o).
+    exists (bflat (add_nil_g (cnil u o) (gobj c u ign n None o))), (etop c u ign n o).
     split; [|split].
     - assert (Ho : exists fs, o = VObj cl fs).
       { destruct n; [discriminate|]. destruct (fits_inv c u ok py_isspace n cl o Hfit) as [fs [_ [-> _]]]. eauto. }
@@ -111,6 +114,7 @@ Section Main.
     intros n cl o Hwf Hfit Hnq Hex. pose proof (wf_model_wfr cl Hwf) as Hw.
     exists (bflat (add_nil_g (cnil u o) (gobj c u ign n None o))). split; [apply (generate_ok n cl o Hwf Hfit)|].
     rewrite (events_mean c u ok py_isspace ign n cl o Hw Hfit). cbn [pump]. unfold Parser.parse.
-    apply (parse_reads true n _ cl o _ (or_introl eq_refl) Hwf Hfit). apply reads_pump. apply (plain_obj c u ok ign n cl o None Hw Hfit Hnq Hex).
+    apply (parse_reads true n _ cl o _ (or_introl eq_refl) Hwf Hfit). apply reads_pump.
+    apply (plain_obj c u ok ign n cl o None _ Hw Hfit Hnq Hex (nil_ok_top c u ok cl o n Hfit)).
   Qed.
 End Main.
